@@ -9,11 +9,12 @@ static int g_live = 0, g_ctor = 0, g_dtor = 0, g_bad = 0, g_copies = 0, g_moves 
 template <size_t SZ> struct Triv { unsigned char b[SZ]; };
 
 // tracked, copyable: sizeof == 8 + PAD
-template <size_t PAD> struct __attribute__((packed)) Trk {
+// NX = false: the move constructor is not noexcept (user-written moves commonly are not) -- moving the holder must still MOVE the object
+template <size_t PAD, bool NX = true> struct __attribute__((packed)) Trk {
 	uint32_t v; uint32_t magic; unsigned char pad[PAD];
 	explicit Trk(uint32_t x) : v(x), magic(0xABCDu) { for(size_t i = 0; i < PAD; i++) pad[i] = (unsigned char)(x + i); ++g_live; ++g_ctor; }
 	Trk(const Trk & o) : v(o.v), magic(0xABCDu) { if(o.magic != 0xABCDu) ++g_bad; for(size_t i = 0; i < PAD; i++) pad[i] = o.pad[i]; ++g_live; ++g_ctor; ++g_copies; }
-	Trk(Trk && o) noexcept : v(o.v), magic(0xABCDu) { if(o.magic != 0xABCDu) ++g_bad; for(size_t i = 0; i < PAD; i++) pad[i] = o.pad[i]; o.v = 0xdeadu; ++g_live; ++g_ctor; ++g_moves; }
+	Trk(Trk && o) noexcept(NX) : v(o.v), magic(0xABCDu) { if(o.magic != 0xABCDu) ++g_bad; for(size_t i = 0; i < PAD; i++) pad[i] = o.pad[i]; o.v = 0xdeadu; ++g_live; ++g_ctor; ++g_moves; }
 	~Trk() { if(magic != 0xABCDu) ++g_bad; magic = 0xDEADu; --g_live; ++g_dtor; }
 };
 // tracked, move-only
@@ -100,16 +101,19 @@ template <size_t M, typename T, bool copyable> static void test_tracked()
 	{
 		unsigned how = vf_choose(copyable ? 3u : 2u);
 		if(how == 0) {        // from rvalue, chain of moves
+			int copiesBefore = g_copies;
 			AD a{T(val)};
 			vf_cover(COV_RVALUE_SRC);
 			check_holder<AD, T>(a, eq, nullptr);
 			unsigned moves = vf_choose(3);
 			if(moves >= 1) { AD b(std::move(a)); check_holder<AD, T>(b, eq, nullptr);
 				if(moves == 2) { AD c(std::move(b)); check_holder<AD, T>(c, eq, nullptr); vf_cover(COV_MOVED_TWICE); } }
+			vf_assert(g_copies == copiesBefore, 176);      // built from an rvalue and only moved since: the held object was never copied
 		}
 		else if(how == 1) {   // queue round trip
 			using Q = eventpp::EventQueue<int, void(const AD &), QPol>;
 			static uint32_t expect; static bool okq; static int calls; expect = val; okq = true; calls = 0;
+			int copiesBefore = g_copies;
 			{
 				Q queue;
 				queue.appendListener(3, [](const AD & d) { const T & x = d.template get<T>(); if(x.v != expect || ! d.template isType<T>()) okq = false; calls++; });
@@ -117,7 +121,8 @@ template <size_t M, typename T, bool copyable> static void test_tracked()
 				queue.enqueue(3, T(val));
 				queue.processOne();
 				vf_assert(okq && calls == 1, 189);
-				vf_assert(g_live >= 1, 190);          // the second event's object is still held
+				vf_assert(g_live == 1, 190);          // exactly the second event's object is still held (moved-from husks are gone, no stray copy alive)
+				vf_assert(g_copies == copiesBefore, 177);      // rvalue in, moved into the queue slot, moved out for dispatch: never copied
 			}
 			vf_cover(COV_QUEUE);
 		}
@@ -160,7 +165,9 @@ template <size_t M> static void test_shared()
 
 extern "C" void harness()
 {
-	unsigned c = vf_choose(18);
+	{ volatile size_t s1 = eventpp::maxSizeOf<Triv<3>, Triv<17>, Triv<5> >(), s2 = eventpp::maxSizeOf<Triv<9> >(), s3 = eventpp::maxSizeOf<Triv<2>, Triv<1>, Triv<40> >(), s4 = eventpp::maxSizeOf<Triv<40>, Triv<1>, Triv<2> >();
+	  vf_assert(s1 == 17 && s2 == 9 && s3 == 40 && s4 == 40, 175); }
+	unsigned c = vf_choose(21);
 	switch(c) {
 	case 0: test_triv<MM, 1>(); break;
 	case 1: test_triv<MM, 2>(); break;
@@ -179,6 +186,9 @@ extern "C" void harness()
 	case 14: test_tracked<MM, Mov<CAP - 8>, false>(); break;
 	case 15: test_tracked<MM, Mov<CAP - 7>, false>(); break;
 	case 16: test_tracked<MM, Mov<CAP + 1>, false>(); break;
+	case 17: test_tracked<MM, Trk<1, false>, true>(); break;
+	case 18: test_tracked<MM, Trk<CAP - 8, false>, true>(); break;
+	case 19: test_tracked<MM, Trk<CAP + 1, false>, true>(); break;
 	default: test_shared<MM>(); break;
 	}
 	vf_end();
